@@ -31,6 +31,7 @@ def shards(tier, seed):
         out.append(("rand_orders_%d" % i, dict(kind="rand", count=25 if q else 150)))
     out.append(("pyopt_order_NIST521p", dict(kind="order", cname="NIST521p", _pyopt=True)))
     out.append(("pyopt_rand", dict(kind="rand", count=10, _pyopt=True)))
+    out.append(("concurrent", dict(kind="concurrent", runs=150 if q else 2000)))
     top = 1 << (11 if q else 12)
     parts = 8 if q else 16
     for i in range(parts):
@@ -125,6 +126,16 @@ def run(ctx, name, kind, **kw):
             for s in range(1, n):
                 check(ctx, n, r, s, "small", detail=False)
             ctx.nontrivial.add("canon.small_n|n=%d" % n)
+    elif kind == "concurrent":
+        from vf import sched as S
+        jobs = []
+        for c in lib.ALL_CURVES[:8]:
+            n = lib.dom_of(c).n
+            for s in (n // 2 + 1, n // 2, n - 1, 1, rng.randrange(1, n), n // 2 + (1 << 40)):
+                r = rng.randrange(1, n)
+                for ename, canon, plain, dec in ENCODERS:
+                    jobs.append(("sigencode_%s_canonize" % ename, canon, (r, s, n), plain(r, min(s, n - s), n)))
+        S.concurrent_purity(ctx, S.codes_of(util), jobs, rng, kw["runs"])
     elif kind == "verify":
         c = lib.BY_NAME[kw["cname"]]
         dom = lib.dom_of(c)
